@@ -409,6 +409,38 @@ def c07c08 (forCuts : Bool) (op : String) (args : List Sexp) : Verdict :=
           .ok s!"{if nok == 0 then "trivial/" else ""}file/{why}/{c.codecName}/{kind}/n{if nok ≥ 1000 then "1000+" else if nok ≥ 100 then "100+" else if nok ≥ 10 then "10+" else toString nok}"
 
 def c07 (op : String) (args : List Sexp) : Verdict := c07c08 false op args
-def c08 (op : String) (args : List Sexp) : Verdict := c07c08 true op args
+/-- `(big-cut codec size nrec (bigcut (layout b0 p0 e0 end) (cuts (c pos delivered err)…)))`: a file of two blocks whose first
+payload exceeds the reader's 1 MiB chunk, truncated at chunk boundaries inside that payload. The file is too large to run the
+list-based model on; the expectation is the statement of `C08.truncation` / `ok_iff_boundary` instantiated with the block layout
+the recording writer observed: a cut strictly inside block j delivers the records of the blocks before j and an error, a cut on
+a block boundary delivers them without error. -/
+def bigCut (args : List Sexp) : Verdict :=
+  match args with
+  | [.atom codec, _, nrec, .list [.atom "bigcut", .list [.atom "layout", b0, _p0, pe0, e0, pe1, fin], .list (.atom "cuts" :: cuts)]] =>
+    match asNat nrec, asNat b0, asNat e0, asNat fin, asNat pe0, asNat pe1 with
+    | some nrec, some b0, some e0, some fin, some pe0, some pe1 =>
+      let bad := cuts.filterMap fun c =>
+        match c with
+        | .list [.atom "c", pos, got, .atom err] =>
+          match asNat pos, asNat got with
+          | some pos, some got =>
+            -- "exactly the records of those blocks whose payload is completely present"
+            let wantGot := if pos < pe0 then 0 else if pos < pe1 then nrec else nrec + 1
+            let wantErr := !(pos == b0 || pos == e0 || pos == fin)
+            if pos < b0 then none
+            else if got != wantGot || (err == "true") != wantErr then
+              some s!"cut at {pos} (block 0 = [{b0},{e0}), its payload ends at {pe0}, file length {fin}): delivered {got} records, error={err}; a file cut there must deliver {wantGot} and error={wantErr}"
+            else none
+          | _, _ => some "unparsable cut"
+        | _ => some "unparsable cut"
+      match bad with
+      | [] => .ok s!"bigcut/{codec}/{cuts.length}-cuts"
+      | b :: _ => .oracle b
+    | _, _, _, _, _, _ => .bad "parse"
+  | [_, _, _, .list (.atom "writeerr" :: why)] => .oracle s!"writing the large file failed: {why}"
+  | _ => .bad "parse"
+
+def c08 (op : String) (args : List Sexp) : Verdict :=
+  if op == "big-cut" then bigCut args else c07c08 true op args
 
 end Avro.Drv
